@@ -200,7 +200,8 @@ class RungeKuttaIntegrator(TableauIntegrator, abc.ABC):
                 timestep, redo_step = self.dTime, False
             if self.is_implicit and not self.solver_dict.get("newton_iteration_success"):
                 redo_step = True
-                timestep = timestep * 0.8
+                # retry below the step that failed, even when the error estimate alone would allow a longer one
+                timestep = 0.8 * (timestep if D.ar_numpy.abs(timestep) < D.ar_numpy.abs(self.dTime) else self.dTime)
             if redo_step:
                 for _ in range(self.solver_dict.get("num_step_retries", 64)):
                     self.solver_dict['redo_count'] += 1
@@ -219,7 +220,7 @@ class RungeKuttaIntegrator(TableauIntegrator, abc.ABC):
                         timestep, redo_step = self.dTime, False
                     if self.is_implicit and not self.solver_dict.get("newton_iteration_success"):
                         redo_step = True
-                        timestep = timestep * 0.8
+                        timestep = 0.8 * (timestep if D.ar_numpy.abs(timestep) < D.ar_numpy.abs(self.dTime) else self.dTime)
                     if not redo_step:
                         break
                 if redo_step:
